@@ -4245,3 +4245,159 @@ func scannerCloseErrorReported(c *Ctx, rule string) {
 	}
 	c.AtLeast(rule, "closes of the rev-list scanner in revListShas", n, 1)
 }
+
+// unlockForgetsLockFirst (C16): once the server has released a lock, the local list of own locks must lose it
+// whatever happens afterwards. In UnlockFileById the cache removal comes before the local steps that can fail
+// (resolving the path, changing the write bit) — a file that has left the working tree must not keep its lock in
+// the cache.
+func unlockForgetsLockFirst(c *Ctx, rule string) {
+	p := c.P
+	fn := p.Fn("locking", "(*Client).UnlockFileById")
+	if fn == nil {
+		c.Missing(rule, "(*locking.Client).UnlockFileById", "not found")
+		return
+	}
+	var rm ssa.Instruction
+	for _, b := range fn.Blocks {
+		for _, in := range b.Instrs {
+			if cc := AsCall(in); cc != nil && strings.HasSuffix(CalleeName(cc), ".RemoveById") {
+				rm = in
+			}
+		}
+	}
+	if rm == nil {
+		c.Bad(rule, "unlock:cache-updated", p.Pos(fn.Pos()), "UnlockFileById does not remove the lock from the cache of own locks")
+		return
+	}
+	n := 0
+	for _, ci := range CallsIn(fn, "tools.SetFileWriteFlag", "(*locking.Client).getAbsolutePath", "locking.getAbsolutePath") {
+		n++
+		c.Check(after(rm, ci) && !after(ci, rm), rule, "unlock:cache-updated-before-local-steps#"+itoa(n), p.InstrPos(ci), "the lock leaves the cache before the fallible local steps",
+			"UnlockFileById performs a local step that can fail (path resolution, write bit) before it removes the lock from the cache of own locks: when the file is missing the server has released the lock but the cache keeps it, and the file stays writable when it reappears")
+	}
+	c.AtLeast(rule, "fallible local steps in UnlockFileById", n, 1)
+}
+
+// unlockGuardAsksServer (C16): `unlock --id` must know the lock's path to check for uncommitted changes. The local
+// cache is asked first; when it has no entry (lock taken elsewhere) the server is asked — the fall-back is taken on
+// "no locks found", not on an error of the local search (which never fails).
+func unlockGuardAsksServer(c *Ctx, rule string) {
+	p := c.P
+	fn := p.Fn("commands", "unlockAbortIfFileModifiedById")
+	if fn == nil {
+		c.Missing(rule, "commands.unlockAbortIfFileModifiedById", "not found")
+		return
+	}
+	var local, remote *ssa.Call
+	for _, ci := range CallsIn(fn, "(*locking.Client).SearchLocks") {
+		cc, ok := ci.(*ssa.Call)
+		if !ok {
+			continue
+		}
+		a := CallArgs(cc.Common())
+		if bv, isC := ConstBool(a[3]); isC {
+			if bv {
+				local = cc
+			} else {
+				remote = cc
+			}
+		}
+	}
+	if local == nil || remote == nil {
+		c.Bad(rule, "unlock-id:server-fallback", p.Pos(fn.Pos()), "unlockAbortIfFileModifiedById does not search the local cache and then the server")
+		return
+	}
+	good := false
+	for _, dc := range decidingConds(fn, remote.Block()) {
+		_, x, y, ok := BinCmp(dc.Cond)
+		if !ok {
+			continue
+		}
+		for _, o := range []ssa.Value{x, y} {
+			if lc, ok := o.(*ssa.Call); ok {
+				if bi, isB := lc.Call.Value.(*ssa.Builtin); isB && bi.Name() == "len" && ResultOfCall(lc.Call.Args[0], local, 0) {
+					good = true
+				}
+			}
+		}
+	}
+	c.Check(good, rule, "unlock-id:server-asked-when-cache-is-empty", p.InstrPos(remote), "the server is searched when the local search found no lock",
+		"the server is not asked for the lock when the local cache has no entry for the id: the path stays unknown, the uncommitted-changes check is skipped, and a lock taken from another clone is released although the file is modified")
+}
+
+// everyCredentialValueWritten (C17): apart from refusing values that would break the line protocol, the serialiser
+// hands the helper exactly the pairs it was given: every iteration over the values either writes the value or
+// leaves the function with an error — it never skips a value (an empty host= or username= is information).
+func everyCredentialValueWritten(c *Ctx, rule string) {
+	p := c.P
+	fn := p.Fn("creds", "(Creds).buffer")
+	if fn == nil {
+		c.Missing(rule, "(creds.Creds).buffer", "not found")
+		return
+	}
+	writes := bufferWrites(fn)
+	loops := Loops(fn)
+	var inner *Loop
+	isWrite := map[ssa.Instruction]bool{}
+	for _, w := range writes {
+		isWrite[w.call.(ssa.Instruction)] = true
+		if l := LoopOf(loops, w.call.Block()); l != nil {
+			if inner == nil || len(l.Region) < len(inner.Region) {
+				inner = l
+			}
+		}
+	}
+	if inner == nil {
+		c.Missing(rule, "value loop of (creds.Creds).buffer", "not found")
+		return
+	}
+	good, where := true, ""
+	for _, ex := range RunCount(CountQuery{Fn: fn, Entry: inner.Body, Region: inner.Region, Header: inner.Header, Event: func(in ssa.Instruction) CSet {
+		if isWrite[in] {
+			return C1
+		}
+		return 0
+	}}) {
+		if (ex.Kind == "backedge" || ex.Kind == "leave") && ex.Set&C0 != 0 {
+			good, where = false, ex.Desc(p)
+		}
+	}
+	c.Check(good, rule, "buffer:no-value-skipped", p.Pos(fn.Pos()), "every value is written or refused with an error", "the serialiser can skip a value without an error ("+where+"): the helper does not receive the pairs that were supplied (e.g. the empty host= and username= of a certificate passphrase request)")
+}
+
+// usernameIsDecodedUserinfo (C17): the username attribute is the decoded user name of the URL. Userinfo.String()
+// returns the percent-encoded form (plus the password): encoded control bytes would pass the line-protocol checks
+// as harmless text and reach the helper un-decoded, and the helper would be asked about a different user.
+func usernameIsDecodedUserinfo(c *Ctx, rule string) {
+	p := c.P
+	fn := p.Fn("creds", "(*CredentialHelperContext).GetCredentialHelper")
+	if fn == nil {
+		c.Missing(rule, "(*creds.CredentialHelperContext).GetCredentialHelper", "not found")
+		return
+	}
+	n := 0
+	for _, b := range fn.Blocks {
+		for _, in := range b.Instrs {
+			mu, ok := in.(*ssa.MapUpdate)
+			if !ok {
+				continue
+			}
+			if s, isC := ConstString(mu.Key); !isC || s != "username" {
+				continue
+			}
+			n++
+			good := false
+			for _, e := range variadicOrdered(mu.Value) {
+				if e == nil {
+					continue
+				}
+				if cc, _, ok := CallResult(e); ok && CalleeName(cc.Common()) == "(*net/url.Userinfo).Username" {
+					good = true
+				}
+			}
+			c.Check(good, rule, "username:decoded-userinfo", p.InstrPos(mu), "the username attribute is Userinfo.Username()",
+				"the username handed to the credential helper is not the decoded user name of the URL (e.g. Userinfo.String(), which is percent-encoded and includes the password): encoded CR/LF/NUL bytes are not refused and the helper is asked about a different user")
+		}
+	}
+	c.AtLeast(rule, "username attributes set in GetCredentialHelper", n, 1)
+}
